@@ -689,4 +689,15 @@ def r8_config_values_not_mutated(a, tier):
     return rep
 
 
-RULES = [r1_cache_key, r2_write_through, r3_inventory, r4_parse_is_readonly, r5_order_dependence, r6_shared_config, r7_publish_last, r8_config_values_not_mutated]
+def r9_memoised_results_read_only(a, tier):
+    """the result of a memoised function is one object for the whole process: a caller that mutates it makes later calls depend on earlier ones"""
+    from . import c17
+    rep = c17.r5_shared_tables_are_read_only(a, tier)
+    rep.rule = 'C10.R9'
+    for f in rep.findings:
+        f.rule = 'C10.R9'
+    rep.text = '[= C17.R5] ' + rep.text
+    return rep
+
+
+RULES = [r1_cache_key, r2_write_through, r3_inventory, r4_parse_is_readonly, r5_order_dependence, r6_shared_config, r7_publish_last, r8_config_values_not_mutated, r9_memoised_results_read_only]
